@@ -44,6 +44,6 @@ PROP = dict(
 
 TEXT = dict(
     technique='Lean 4 proof on a cell-level model of fit_to_csv.go / csv_to_fit.go over the regenerated profile table + differential tie driving the real converters in-process (FITToCSVConv as decoder listener with message copy, CSVToFITConv, decode)',
-    text='Column-count theorems for any list of lines; raw round trip of every decoded scalar through its cell; the model is compared with the real converters on generated FIT files over all profile messages (CSV structure, written messages, sequences) and the property predicate is evaluated on the implementation output.',
+    text='C19_columns / _trim for any list of lines; C19_tables (regenerated profile and lookup tables consistent, kernel-decided); C19_scalar_roundtrip_raw, C19_field_roundtrip_raw, C19_scaled_roundtrip (under the tested arithmetic hypothesis) and the file-level C19_raw_roundtrip_partial / C19_sequences_partial for chains of files of plain messages; the model is compared with the real converters on generated FIT files over all profile messages (CSV structure, written messages, sequences) and the property predicate is evaluated on the implementation output.',
     note='Partial: the text layer (strconv, encoding/csv, unicode) is assumed; the scaled-mode arithmetic is a tested hypothesis.',
 )
